@@ -317,6 +317,31 @@ Proof.
   fold (agent_env i red cidx). rewrite Hf. destruct (feasible m p (agent_env i red cidx)); [now apply Ho|reflexivity].
 Qed.
 
+(* (0) whatever the other choices are: the value of row i is the maximum over the dense discrete and continuous choices *)
+Definition cond_max (i : nat) : val :=
+  vmaxl (map (fun red => vmaxl (map (spec_cand m p t last vnext (agent_state i) dch cch red) (indices (sizes cch)))) (indices (sizes dch))).
+
+Theorem row_value_is_conditional_max i : i < n -> veq (value_of i) (cond_max i).
+Proof.
+  intros Hi. rewrite (value_is_max i Hi). unfold cond_max. apply vmaxl_compat. apply Forall2_map_in.
+  intros red Hr. apply in_indices in Hr. now apply ccv_of_spec.
+Qed.
+
+Lemma value_of_defined i : i < n -> defined (value_of i).
+Proof.
+  intros Hi. rewrite (value_is_max i Hi). unfold vmaxl. assert (Hdn : defined VNegInf) by discriminate.
+  apply (fold_vmax_spec VNegInf _ Hdn). apply Forall_forall. intros x Hx. apply in_map_iff in Hx. destruct Hx as (red & <- & Hr).
+  apply in_indices in Hr. now apply ccv_entry_defined.
+Qed.
+
+Lemma value_rows_shape : wf (snd decision) /\ shape (snd decision) = [n].
+Proof.
+  rewrite decision_unfold. cbn [snd]. unfold r2.
+  pose proof (argmax_trailing_shapes ccv_arr None None 1 I rank_ok) as [_ S].
+  pose proof (argmax_trailing_wf ccv_arr None None 1 I rank_ok) as [_ W].
+  rewrite front_is_n in S. split; assumption.
+Qed.
+
 (* (1) the reported value is the specification's value of the agent's state *)
 Theorem simulated_value_is_the_specifications i : i < n ->
   veq (value_of i) (value_at m p t last vnext (agent_state i)).
@@ -400,6 +425,69 @@ End General.
 Lemma vmax_neginf_r x : vmax x VNegInf = x.
 Proof. destruct x; reflexivity. Qed.
 
+(* row level: no assumption on which choices exist besides dch and cch -- used with the states as rows (agents) and, with
+   filter-restricted choices, with the stored (agent, restricted choice) combinations as rows *)
+Theorem decision_rows_general :
+  forall (m : model) (p : params) (t : nat) (last : bool) (vnext : list nat -> val) (dst dch cst cch : list (string * grid)),
+  forall (uf : list Q -> val * bool), (forall vals, defined (fst (uf vals))) ->
+  forall (n : nat) (colsD colsC : list (list Q)),
+  length colsD = length dst -> length colsC = length cst ->
+  Forall (fun c : list Q => length c = n) (colsD ++ colsC) -> (colsD ++ colsC)%list <> [] ->
+  (forall i dc cc, i < n -> in_bounds (sizes dch) dc -> in_bounds (sizes cch) cc ->
+     snd (uf (agent_vals dch cch colsD colsC i dc cc)) = feasible m p (agent_env t dst dch cst cch colsD colsC i dc cc) /\
+     (feasible m p (agent_env t dst dch cst cch colsD colsC i dc cc) = true ->
+      veq (fst (uf (agent_vals dch cch colsD colsC i dc cc))) (objective m p last vnext (agent_env t dst dch cst cch colsD colsC i dc cc)))) ->
+  (wf (snd (decision_g dst dch cst cch uf colsD colsC)) /\ shape (snd (decision_g dst dch cst cch uf colsD colsC)) = [n]) /\
+  forall i, i < n ->
+  veq (value_g dst dch cst cch uf colsD colsC i) (cond_max m p t last vnext dst dch cst cch colsD colsC i) /\
+  defined (value_g dst dch cst cch uf colsD colsC i) /\
+  (value_g dst dch cst cch uf colsD colsC i <> VNegInf ->
+   let red := red_g dst dch cst cch uf colsD colsC i in
+   let cidx := unravel (sizes cch) (cont_argmax_g dst dch cst cch uf colsD colsC i) in
+   in_bounds (sizes dch) red /\ in_bounds (sizes cch) cidx /\
+   feasible m p (agent_env t dst dch cst cch colsD colsC i red cidx) = true /\
+   veq (objective m p last vnext (agent_env t dst dch cst cch colsD colsC i red cidx)) (value_g dst dch cst cch uf colsD colsC i)).
+Proof.
+  intros m p t last vnext dst dch cst cch uf Hdef n colsD colsC HlD HlC Hrows Hst Hpoint.
+  destruct dch as [|d0 dr].
+  - (* no dense discrete choice: no reduction, the continuous arg-max is the policy *)
+    split.
+    { change (snd (decision_g dst [] cst cch uf colsD colsC)) with (ccv_arr dst [] cst cch uf colsD colsC).
+      exact (ccv_shape dst [] cst cch uf n colsD colsC HlD HlC Hrows Hst). }
+    intros i Hi.
+    assert (Hv : value_g dst [] cst cch uf colsD colsC i = ccv_of dst [] cst cch uf colsD colsC i []) by reflexivity.
+    assert (Hb : in_bounds (sizes (@nil (string * grid))) []) by exact I.
+    pose proof (ccv_of_spec m p t last vnext dst [] cst cch uf n colsD colsC HlD HlC Hrows Hst Hpoint i [] Hi Hb) as Hs.
+    split; [|split].
+    + rewrite Hv. unfold cond_max. cbn [sizes map indices]. unfold vmaxl at 1. cbn [fold_right]. rewrite vmax_neginf_r. exact Hs.
+    + rewrite Hv. unfold ccv_of. apply (ccv_entry_defined dst [] cst cch uf Hdef n colsD colsC); assumption.
+    + intros HM. cbv zeta. change (red_g dst [] cst cch uf colsD colsC i) with (@nil nat).
+      assert (Hc : cont_argmax_g dst [] cst cch uf colsD colsC i
+                   = get 0 (fst (compute_ccv_policy (tabulate (sizes cch) (U_of [] cch uf colsD colsC i []))
+                                                    (tabulate (sizes cch) (F_of [] cch uf colsD colsC i [])))) []).
+      { unfold cont_argmax_g, dense_argmax_g, decision_g, sim_choice_axes, calculate_discrete_argmax. cbn [fst snd filter_ccv_policy_row].
+        unfold slice. rewrite get_tabulate.
+        - now apply (pol_entry dst [] cst cch uf n colsD colsC HlD HlC Hrows Hst i [] Hi).
+        - unfold ccv_policy_arr. rewrite (vmapG_shape _ _ _ _ (pol_rows_shape dst [] cst cch uf colsD colsC HlD)). exact I. }
+      rewrite Hv in HM. unfold ccv_of in HM. rewrite (ccv_entry dst [] cst cch uf n colsD colsC HlD HlC Hrows Hst i [] Hi Hb) in HM.
+      rewrite <- (pol_value (sizes cch) (U_of [] cch uf colsD colsC i []) (F_of [] cch uf colsD colsC i [])) in HM.
+      destruct (pol_position (sizes cch) (U_of [] cch uf colsD colsC i []) (F_of [] cch uf colsD colsC i []) (fun c => Hdef _) HM) as (Hcb & HF & HU).
+      rewrite <- Hc in Hcb, HF, HU.
+      set (cidx := unravel (sizes cch) (cont_argmax_g dst [] cst cch uf colsD colsC i)) in *.
+      destruct (Hpoint i [] cidx Hi Hb Hcb) as [Hf Ho]. unfold F_of in HF. rewrite Hf in HF.
+      split; [exact I|]. split; [exact Hcb|]. split; [exact HF|].
+      rewrite <- (Ho HF). eapply veq_trans; [exact HU|].
+      rewrite (pol_value (sizes cch) (U_of [] cch uf colsD colsC i []) (F_of [] cch uf colsD colsC i [])).
+      rewrite <- (ccv_entry dst [] cst cch uf n colsD colsC HlD HlC Hrows Hst i [] Hi Hb). rewrite Hv. reflexivity.
+  - (* at least one dense discrete choice *)
+    split; [exact (value_rows_shape dst (d0 :: dr) cst cch uf n colsD colsC HlD HlC Hrows Hst)|].
+    intros i Hi. split; [|split].
+    + exact (row_value_is_conditional_max m p t last vnext dst (d0 :: dr) cst cch uf n colsD colsC HlD HlC Hrows Hst Hpoint i Hi).
+    + apply (value_of_defined dst (d0 :: dr) cst cch uf Hdef n colsD colsC); assumption.
+    + exact (simulated_choice_is_a_maximiser m p t last vnext dst (d0 :: dr) cst cch uf Hdef n colsD colsC HlD HlC Hrows Hst Hpoint i Hi).
+Qed.
+
+(* agent level (no filter-restricted choices): dch and cch are all the choices of the model *)
 Theorem simulated_decision_is_optimal :
   forall (m : model) (p : params) (t : nat) (last : bool) (vnext : list nat -> val) (dst dch cst cch : list (string * grid)),
   Permutation (dch ++ cch) (choices m) -> NoDup (map fst (choices m)) ->
@@ -421,38 +509,12 @@ Theorem simulated_decision_is_optimal :
    veq (objective m p last vnext (agent_env t dst dch cst cch colsD colsC i red cidx)) (value_g dst dch cst cch uf colsD colsC i)).
 Proof.
   intros m p t last vnext dst dch cst cch Hperm Hnd uf Hdef n colsD colsC HlD HlC Hrows Hst Hpoint i Hi.
-  destruct dch as [|d0 dr].
-  - (* no dense discrete choice: no reduction, the continuous arg-max is the policy *)
-    assert (Hv : value_g dst [] cst cch uf colsD colsC i = ccv_of dst [] cst cch uf colsD colsC i []) by reflexivity.
-    assert (Hb : in_bounds (sizes (@nil (string * grid))) []) by exact I.
-    pose proof (ccv_of_spec m p t last vnext dst [] cst cch uf n colsD colsC HlD HlC Hrows Hst Hpoint i [] Hi Hb) as Hs.
-    split.
-    + rewrite Hv. eapply veq_trans; [|apply (code_maximum_is_spec_value m p t last vnext (agent_state dst cst colsD colsC i) [] cch Hperm Hnd
-                                              (ccv_of dst [] cst cch uf colsD colsC i))].
-      * cbn [map indices vmaxl fold_right]. unfold vmaxl. cbn [fold_right]. rewrite vmax_neginf_r. reflexivity.
-      * intros red Hr. destruct red; [|contradiction]. exact Hs.
-    + intros HM. cbv zeta. change (red_g dst [] cst cch uf colsD colsC i) with (@nil nat).
-      assert (Hc : cont_argmax_g dst [] cst cch uf colsD colsC i
-                   = get 0 (fst (compute_ccv_policy (tabulate (sizes cch) (U_of [] cch uf colsD colsC i []))
-                                                    (tabulate (sizes cch) (F_of [] cch uf colsD colsC i [])))) []).
-      { unfold cont_argmax_g, dense_argmax_g, decision_g, sim_choice_axes, calculate_discrete_argmax. cbn [fst snd filter_ccv_policy_row].
-        unfold slice. rewrite get_tabulate.
-        - now apply (pol_entry dst [] cst cch uf n colsD colsC HlD HlC Hrows Hst i [] Hi).
-        - unfold ccv_policy_arr. rewrite (vmapG_shape _ _ _ _ (pol_rows_shape dst [] cst cch uf colsD colsC HlD)). exact I. }
-      rewrite Hv in HM. unfold ccv_of in HM. rewrite (ccv_entry dst [] cst cch uf n colsD colsC HlD HlC Hrows Hst i [] Hi Hb) in HM.
-      rewrite <- (pol_value (sizes cch) (U_of [] cch uf colsD colsC i []) (F_of [] cch uf colsD colsC i [])) in HM.
-      destruct (pol_position (sizes cch) (U_of [] cch uf colsD colsC i []) (F_of [] cch uf colsD colsC i []) (fun c => Hdef _) HM) as (Hcb & HF & HU).
-      rewrite <- Hc in Hcb, HF, HU.
-      set (cidx := unravel (sizes cch) (cont_argmax_g dst [] cst cch uf colsD colsC i)) in *.
-      destruct (Hpoint i [] cidx Hi Hb Hcb) as [Hf Ho]. unfold F_of in HF. rewrite Hf in HF.
-      split; [exact I|]. split; [exact Hcb|]. split; [exact HF|].
-      rewrite <- (Ho HF). eapply veq_trans; [exact HU|].
-      rewrite (pol_value (sizes cch) (U_of [] cch uf colsD colsC i []) (F_of [] cch uf colsD colsC i [])).
-      rewrite <- (ccv_entry dst [] cst cch uf n colsD colsC HlD HlC Hrows Hst i [] Hi Hb). rewrite Hv. reflexivity.
-  - (* at least one dense discrete choice *)
-    split.
-    + exact (simulated_value_is_the_specifications m p t last vnext dst (d0 :: dr) cst cch Hperm Hnd uf n colsD colsC HlD HlC Hrows Hst Hpoint i Hi).
-    + exact (simulated_choice_is_a_maximiser m p t last vnext dst (d0 :: dr) cst cch uf Hdef n colsD colsC HlD HlC Hrows Hst Hpoint i Hi).
+  destruct (decision_rows_general m p t last vnext dst dch cst cch uf Hdef n colsD colsC HlD HlC Hrows Hst Hpoint) as [_ G].
+  destruct (G i Hi) as (Hv & _ & Hmax). split; [|exact Hmax].
+  eapply veq_trans; [exact Hv|]. unfold cond_max.
+  apply (code_maximum_is_spec_value m p t last vnext (agent_state dst cst colsD colsC i) dch cch Hperm Hnd
+           (fun red => vmaxl (map (spec_cand m p t last vnext (agent_state dst cst colsD colsC i) dch cch red) (indices (sizes cch))))).
+  intros red Hr. reflexivity.
 Qed.
 
 (* ---- with the regenerated u_and_f at every (agent, choice) point ---------------------------------------------------- *)
